@@ -354,6 +354,7 @@ func checkNonEmptyFieldInvariant(w *core.World, r *core.Report, rule string, lf 
 			r.Touch(core.QName(fn))
 			if bd == nil {
 				bd = core.NewBounds(fn, intBits(w))
+				bd.NoForward = true // the hypothesis below must not flow from a later load back into the stored value
 				// inductive hypothesis: loads of the field have len >= k
 				(&libFacts{fieldLenGE: map[string]int64{fkey(tn, f): k}, nilOrLenGE: map[string]int64{}, idxSummary: map[*ssa.Function]string{}, lenResultGE: map[*ssa.Function]int64{}, fieldWriters: lf.fieldWriters}).install(bd)
 			}
